@@ -11,6 +11,7 @@ import Driver.Asn1
 import Driver.ApReq
 import Driver.Spnego
 import Driver.KdcRep
+import Driver.Client
 
 open Driver
 
@@ -32,6 +33,7 @@ def dispatch (line : String) : String :=
       else if op.startsWith "ap." then ApReq.handle op args
       else if op.startsWith "sp." then Spnego.handle op args
       else if op.startsWith "kr." then KdcRep.handle op args
+      else if op.startsWith "cl." then Client.handle op args
       else none
     match r with
     | some s => s
